@@ -63,6 +63,27 @@ Theorem C16_versatiles_unlisted :
 Proof. exact vt_lookup_unlisted. Qed.
 Print Assumptions C16_versatiles_unlisted.
 
+(* leaf directories: a root of leaf pointers (one per leaf, carrying the leaf's first id) over
+   leaves whose concatenation has disjoint runs - the lookup goes through the pointer into the
+   leaf and finds the entry of every id inside a run.  Deeper trees compose by pm_lookup_step. *)
+Theorem C16_two_level_lookup :
+  forall leaffn pre l o n post e t d,
+    let leaves := pre ++ (l, (o, n)) :: post in
+    runs_ok (concat (map fst leaves)) ->
+    Forall (fun x => fst x <> [] /\ (0 < snd (snd x))%N) leaves ->
+    leaffn o n = Ok l ->
+    In e l -> (0 < e_len e)%N -> (0 < e_run e)%N -> (e_id e <= t < e_id e + e_run e)%N ->
+    pm_lookup pm_arith_variant (S (S d)) leaffn (root_of leaves) t = Ok (Some e).
+Proof. exact (two_level_lookup pm_arith_variant). Qed.
+Print Assumptions C16_two_level_lookup.
+
+Theorem C16_lookup_step :
+  forall d leaf dir t p dir',
+    find_tile pm_arith_variant dir t = Ok (Some p) -> (0 < e_len p)%N -> e_run p = 0%N -> leaf (e_off p) (e_len p) = Ok dir' ->
+    pm_lookup pm_arith_variant (S d) leaf dir t = pm_lookup pm_arith_variant d leaf dir' t.
+Proof. exact (pm_lookup_step pm_arith_variant). Qed.
+Print Assumptions C16_lookup_step.
+
 (* non-vacuity: a directory with a run, a leaf pointer and a gap *)
 Example C16_example :
   let es := [mkE 5 0 10 4; mkE 9 10 3 1; mkE 20 0 50 0; mkE 100 13 8 2]%N in
